@@ -644,7 +644,7 @@ REGISTRY = {
     'C10': {
         'level': 'other',
         'engine': 'pybound',
-        'technique': 'bounded native contracts per pass configuration (45 '
+        'technique': 'bounded native contracts per pass configuration (51 '
                      'rows: rule passes, single-qudit decompositions, '
                      'conversion and utility passes, gate removal, two-qudit '
                      'retargeting, QSD / Block-ZXZ / diagonal extraction / '
